@@ -31,6 +31,14 @@ struct ST(
     int b,
 )
 
+struct OUTER(
+    ST       one,
+    map<ST>  by_key,
+    ST[]     list,
+    map<int> counts,
+    map      bag,
+)
+
 stage S(
     in  string   s,
     in  int      i,
@@ -41,6 +49,7 @@ stage S(
     in  ST[]     sts,
     in  map      um,
     in  map<ST>  ms,
+    in  OUTER    built,
     out int      o,
     src comp     "bin",
 )
@@ -65,6 +74,9 @@ func c16Unmarshal(data []byte, v any) error {
 	}
 	panic("json model: unsupported Unmarshal target")
 }
+
+// a value of struct OUTER (keys in the order the formatter writes them)
+const c16Built = `{"bag":{"q":{"z":1}},"by_key":{"k 1":{"a":1,"b":2}},"counts":{"c d":3},"list":[{"a":4,"b":5}],"one":{"a":6,"b":7}}`
 
 type c16Fixture struct {
 	callable syntax.Callable
@@ -145,6 +157,7 @@ func H_C16_invocationLoop(n int, flagKind int, splitKind int) {
 		"sts":  c16Cat([]byte(`[{"a":`), sa, []byte(`,"b":`), sb, []byte(`}]`)),
 		"um":   c16Cat([]byte(`{"x":`), k, []byte(`}`)),
 		"ms":   c16Cat([]byte(`{"w":{"a":`), sa, []byte(`,"b":`), sb, []byte(`}}`)),
+		"built": json.RawMessage(c16Built),
 	}
 	// mapped (split) arguments: none, listed in declaration order (m, arr), or
 	// listed the other way round
@@ -252,6 +265,7 @@ var c16SplitParams = []struct {
 	{"um", `{"x":8}`},
 	{"ms", `{"r2":{"a":3,"b":4},"run 1":{"a":1,"b":2}}`},
 	{"s", `"text"`},
+	{"built", c16Built},
 }
 
 // H_C16_splitShapes(p, over): parameter p of the stage is mapped: the
@@ -321,6 +335,85 @@ func H_C16_splitShapes(pi, over int) {
 		verifAssert(ok, "C16: every argument survives the round trip")
 		if ok {
 			verifAssert(verifBytesEq(c16Strip(got), c16Strip(want)), "C16: invocation JSON -> call text -> invocation JSON gives back every argument value, mapped arguments included")
+		}
+	}
+}
+
+// H_C16_structMembers(form): the argument `built` of struct type OUTER — whose
+// members are a struct, a typed map of structs, an array of structs, a typed
+// map of ints and an untyped map — handed to BuildCallAst as raw JSON (form 0),
+// as a decoded map whose members are raw JSON (form 1: what mrp has when a
+// stage argument is a struct literal with members bound to upstream outputs,
+// and what it records as the fork's invocation), or decoded one level deeper
+// (form 2).
+//
+//	C16: the call text compiles against the stage and converts back to the same
+//	     value: each member is written according to its own declared type.
+func H_C16_structMembers(form int) {
+	fx := c16Callable()
+	raw := map[string]json.RawMessage{}
+	for _, q := range c16SplitParams {
+		raw[q.name] = json.RawMessage(q.value)
+	}
+	raw["flag"] = json.RawMessage("true")
+	args := MarshalerMap{}
+	for k, v := range raw {
+		args[k] = v
+	}
+	one := json.RawMessage(`{"a":6,"b":7}`)
+	byKey := json.RawMessage(`{"k 1":{"a":1,"b":2}}`)
+	list := json.RawMessage(`[{"a":4,"b":5}]`)
+	counts := json.RawMessage(`{"c d":3}`)
+	bag := json.RawMessage(`{"q":{"z":1}}`)
+	switch form {
+	case 1:
+		args["built"] = MarshalerMap{"one": one, "by_key": byKey, "list": list, "counts": counts, "bag": bag}
+	case 2:
+		args["built"] = MarshalerMap{
+			"one":    LazyArgumentMap{"a": json.RawMessage("6"), "b": json.RawMessage("7")},
+			"by_key": LazyArgumentMap{"k 1": json.RawMessage(`{"a":1,"b":2}`)},
+			"list":   marshallerArray{json.RawMessage(`{"a":4,"b":5}`)},
+			"counts": LazyArgumentMap{"c d": json.RawMessage("3")},
+			"bag":    LazyArgumentMap{"q": json.RawMessage(`{"z":1}`)},
+		}
+	}
+	ast, err := BuildCallAst("S", args, nil, fx.callable, fx.lookup, nil)
+	verifAssert(err == nil, "C16: invocation data with a struct argument converts to a call")
+	if err != nil {
+		return
+	}
+	verifCover("struct argument call built")
+	text := ast.Format()
+	callText := text
+	for len(callText) > 0 && (callText[0] == '@' || callText[0] == '\n') {
+		nl := bytes.IndexByte([]byte(callText), '\n')
+		if nl < 0 {
+			break
+		}
+		callText = callText[nl+1:]
+	}
+	var parser syntax.Parser
+	_, _, _, err = parser.ParseSourceBytes([]byte(c16Src+"\n"+callText), "/m/call.mro", nil, false)
+	verifAssert(err == nil, "C16: the invocation recorded for a stage whose argument is a struct with map- and array-typed members is a compiling call of that stage")
+	if err != nil {
+		return
+	}
+	ast2, err := parser.UncheckedParse([]byte(text), "/m/call.mro")
+	verifAssert(err == nil, "C16: the generated call text parses")
+	if err != nil {
+		return
+	}
+	data, err := BuildDataForAst(ast2)
+	verifAssert(err == nil && data != nil, "C16: the call text converts back to invocation data")
+	if err != nil || data == nil {
+		return
+	}
+	verifCover("struct argument round trip done")
+	for key, want := range raw {
+		got, ok := data.Args[key]
+		verifAssert(ok, "C16: every argument survives the round trip")
+		if ok {
+			verifAssert(verifBytesEq(c16Strip(got), c16Strip(want)), "C16: a struct argument with struct, typed-map, array and untyped-map members comes back unchanged")
 		}
 	}
 }
